@@ -3,8 +3,8 @@
    D03-D06 (see known_findings.json).  One function per Python function, same branch order.
    The object model keeps the library's shape: a precondition is an operator with a collection of operands
    plus separate sets of (in)equality pairs; effects are split into discrete / numeric / conditional / universal.
-   Strictness: an atom or a function application with a repeated argument is an error in the model (the library
-   collapses it through its name-keyed dicts: recorded finding D07). *)
+   An atom or a function application with a repeated argument or a wrong number of arguments is an error
+   (ValueError) in the library since the D46 repair, and so it is here. *)
 From Coq Require Import List Ascii String Bool Arith PrimFloat.
 From Verif Require Import Base.Result Base.Str Base.Sexp Base.PyDict Model.Types.
 Import ListNotations.
@@ -101,11 +101,11 @@ Fixpoint parse_signature_aux (tt : typetable) (toks : list sexp) (grouped : list
 Definition parse_signature (tt : typetable) (toks : list sexp) : result signature :=
   parse_signature_aux tt toks [] [].
 
-(* ---------- domain_parser.parse_constants (trailing untyped constants are dropped by the code) ---------- *)
+(* ---------- domain_parser.parse_constants (constants without a type are of type object: D45 repaired) ---------- *)
 Fixpoint parse_constants_aux (tt : typetable) (toks : list sexp) (same : list string) (marker : bool)
   (acc : pydict string) : result (pydict string) :=
   match toks with
-  | [] => Ok acc
+  | [] => Ok (fold_left (fun a c => dset a c "object") same acc)
   | SList _ :: _ => Err EType
   | Atom t :: rest =>
       if marker then
@@ -187,13 +187,10 @@ Section Trees.
                     | None => Err EKey
                     | Some sg =>
                         do args' <- atoms_of args;
-                        match args' with
-                        | [] => Ok (TFn h (dkeys sg))                       (* the declared function itself *)
-                        | _ =>
-                            if negb (Nat.eqb (List.length args') (List.length sg)) then Err EValue
-                            else if has_dup args' then Err EValue           (* D07 *)
-                            else Ok (TFn h args')
-                        end
+                        (* arity and repeats are checked for every application, '(f)' included (D46/D47 repaired) *)
+                        if negb (Nat.eqb (List.length args') (List.length sg)) then Err EValue
+                        else if has_dup args' then Err EValue
+                        else Ok (TFn h args')
                     end
               | SList _ :: _ => Err EType
               end
